@@ -20,6 +20,10 @@ def runOp (args impl : List String) : Option (String × String) := do
   let triple (k : String) : List Int := ((out k).splitOn "/").map fun (x : String) => x.toInt?.getD (-1)
   let res := triple "res"; let truth := triple "truth"; let met := triple "metrics"
   let blocked := arg "block" "0" ≠ "0"
+  let fileStages := ((arg "file" "").splitOn ";").filter (· ≠ "")
+  let fileUsersOnly := ¬fileStages.isEmpty ∧ fileStages.all (·.startsWith "u:")
+  let fileMaxUsers : Int := fileStages.foldl (fun (m : Int) (st : String) =>
+    max m (((st.splitOn ":").getD 2 "0").toInt?.getD 0)) 0
   let setupFailed := arg "setupfail" "0" ≠ "0"
   let maxit := an "maxit" "0"
   let conc := an "conc" "10"
@@ -89,6 +93,10 @@ def runOp (args impl : List String) : Option (String × String) := do
       if prop = "C07" ∧ n "inflight" = 0 ∧ ¬blocked ∧ res.take 2 ≠ truth then
         "FAIL iteration-outcome-differs-from-what-its-body-did"
       else if n "maxflight" > conc ∧ arg "mode" "constant" ≠ "file" then "FAIL more-than-concurrency-iterations-in-flight"
+      -- a config file made of users stages only: a stage's users finish before the next stage starts theirs, so never more
+      -- iterations in flight than the largest stage has users
+      else if arg "mode" "constant" = "file" ∧ fileUsersOnly ∧ n "maxflight" > fileMaxUsers then
+        "FAIL more-iterations-in-flight-than-the-users-of-any-one-stage"
       else if n "shared" ≠ 0 then "FAIL two-concurrent-iterations-shared-a-handle"
       else if n "setupHandleInIteration" > 0 then "FAIL iteration-was-handed-the-setup-handle"
       else if arg "expectfull" "0" = "1" ∧ n "maxflight" ≠ conc then "FAIL not-all-workers-usable"
